@@ -18,7 +18,9 @@ const POOLS: [usize; 7] = [2, 3, 4, 7, 16, 33, 64];
 
 /// A network with every layer kind, a skip connection across the block and a loop connection.
 fn everything_net(rng: &mut Rng) -> NetCfg {
-    let c = rng.range(1, 2);
+    // 1..4 channels: the deconvolution behind the block (2 filters) sees fewer, as many and
+    // more input channels than it has filters
+    let c = rng.range(1, 4);
     let (h, w) = (rng.range(3, 4), rng.range(3, 4));
     let act = |rng: &mut Rng| *rng.pick(&[Act::Tanh, Act::Sigmoid, Act::Leaky, Act::Relu]);
     let drop = |rng: &mut Rng| if rng.chance(0.4) { Some(0.5f32) } else { None };
@@ -49,11 +51,13 @@ fn everything_net(rng: &mut Rng) -> NetCfg {
     cfg
 }
 
-/// A stack of convolutions / deconvolutions that all keep the channel count, with kernels 1..3
+/// A stack of convolutions / deconvolutions with 1..5 channels / filters each, with kernels 1..3
 /// and paddings 0..2 chosen per layer: consecutive layers often work on scratch tensors of the
 /// same shape with different margins (what a per-thread reused buffer would get wrong).
 pub fn stack_net(rng: &mut Rng) -> NetCfg {
-    let c = rng.range(1, 2);
+    // the channel count changes from layer to layer (1..5): layers with more input channels than
+    // filters, as many, and fewer
+    let c = rng.range(1, 5);
     let (mut h, mut w) = (rng.range(3, 5), rng.range(3, 5));
     let input = Sh::Sp(c, h, w);
     let act = |rng: &mut Rng| *rng.pick(&[Act::Tanh, Act::Sigmoid, Act::Leaky, Act::Relu]);
@@ -76,6 +80,7 @@ pub fn stack_net(rng: &mut Rng) -> NetCfg {
             continue;
         }
         let dropout = if rng.chance(0.25) { Some(0.5f32) } else { None };
+        let c = if rng.chance(0.3) { c } else { rng.range(1, 5) };
         layers.push(if conv { LCfg::Conv { filters: c, kernel: (k, k), stride: (1, 1), padding: (p, p), dilation: (1, 1), act: act(rng), dropout } } else { LCfg::Deconv { filters: c, kernel: (k, k), stride: (1, 1), padding: (p, p), act: act(rng), dropout } });
         h = nh as usize;
         w = nw as usize;
@@ -188,7 +193,7 @@ impl Monitor for C05 {
         vec![("miri", 1), ("schedules", tier.pick(24, 600)), ("wide", tier.pick(4, 40)), ("stacks", tier.pick(8, 200))]
     }
     fn rule(&self) -> &'static str {
-        "case = a network with every layer kind (convolution, feedback block of convolution+deconvolution, deconvolution, max-pool, five dense layers, a skip connection across the block, two skip connections sharing their source, a loop connection over a dense layer, dropout on random layers), 24..64 training samples, batch 1..32, 2 epochs with 150..300 or 500..1300 validation inputs (2..21 chunks of 64, not a multiple of 64), followed by validate() and predict_batch() on the same inputs. The identical call is executed in a 1-thread pool without delays (reference) and in dedicated rayon pools of 2, 3, 4, 7, 16, 33 and 64 threads with the delay injector armed (random 0..300 us stalls at the entry of every per-sample forward pass, two delay seeds per pool size), plus once in an 8-thread pool while 16 busy threads starve the machine, plus a repetition of the reference. Every output - per-epoch train/validation loss and accuracy, all final weights, the validate() result, every predict_batch() output in order - must be bit-identical to the reference. Evidence that schedules differed: per training group the sample->worker assignment and the order in which the per-sample tasks started, taken from the event log; distinct = distinct (case, assignment/start-order) schedules observed. stacks: the same protocol on stacks of 3..6 convolutions / deconvolutions with one channel count, kernels 1 or 3 and paddings 0..2 per layer (consecutive layers work on intermediate tensors of equal shape with different margins), max-pool, two dense layers. wide: the same protocol on networks whose dense layers have 4096..8200 inputs or outputs. Miri leg: /verif/miri under -Zmiri-many-seeds (4 seeds quick, 32 thorough): every seed must print the same bit patterns and Miri must report no undefined behaviour or data race."
+        "case = a network with every layer kind and 1..4 channels (convolution, feedback block of convolution+deconvolution, deconvolution, max-pool, five dense layers, a skip connection across the block, two skip connections sharing their source, a loop connection over a dense layer, dropout on random layers), 24..64 training samples, batch 1..32, 2 epochs with 150..300 or 500..1300 validation inputs (2..21 chunks of 64, not a multiple of 64), followed by validate() and predict_batch() on the same inputs. The identical call is executed in a 1-thread pool without delays (reference) and in dedicated rayon pools of 2, 3, 4, 7, 16, 33 and 64 threads with the delay injector armed (random 0..300 us stalls at the entry of every per-sample forward pass, two delay seeds per pool size), plus once in an 8-thread pool while 16 busy threads starve the machine, plus a repetition of the reference. Every output - per-epoch train/validation loss and accuracy, all final weights, the validate() result, every predict_batch() output in order - must be bit-identical to the reference. Evidence that schedules differed: per training group the sample->worker assignment and the order in which the per-sample tasks started, taken from the event log; distinct = distinct (case, assignment/start-order) schedules observed. stacks: the same protocol on stacks of 3..6 convolutions / deconvolutions with 1..5 input channels and 1..5 filters each (more channels than filters, as many, fewer), kernels 1 or 3 and paddings 0..2 per layer (consecutive layers work on intermediate tensors of equal shape with different margins), max-pool, two dense layers. wide: the same protocol on networks whose dense layers have 4096..8200 inputs or outputs. Miri leg: /verif/miri under -Zmiri-many-seeds (4 seeds quick, 32 thorough): every seed must print the same bit patterns and Miri must report no undefined behaviour or data race."
     }
     fn assumptions(&self) -> Vec<&'static str> {
         vec![
